@@ -348,41 +348,84 @@ Section Coherence.
     - discriminate.
   Qed.
 
-  Theorem realize_block_coherent : forall l seen dirty s s',
-    forallb (flat_ok d others) l = true -> safe_order d seen dirty l = true ->
-    (dirty = true -> has_out d l = true) -> Rel seen dirty s s' ->
-    exists seen', Rel seen' false (exec_list trips l s) (exec_list trips (fst (ins_list d s0 seen false l)) s').
+  Lemma kind_io k : k_is_input k || k_is_output k = true.
+  Proof. destruct k; reflexivity. Qed.
+
+  Lemma flags_io id uses i o : item_flags d (IOp id uses) = Some (i, o) -> i || o = true.
   Proof.
-    induction l as [|it r IH]; intros seen dirty s s' Hflat Hsafe Hdirty R.
+    cbn [item_flags]. destruct (uses_val d uses) eqn:E; [|discriminate]. intros H.
+    assert (Ei : existsb (fun u => (fst u =? d)%nat && k_is_input (snd u)) uses = i) by congruence.
+    assert (Eo : existsb (fun u => (fst u =? d)%nat && k_is_output (snd u)) uses = o) by congruence.
+    unfold uses_val in E. apply existsb_exists in E as [u [Hu Eu]].
+    pose proof (kind_io (snd u)) as Hk. apply orb_true_iff in Hk as [Hk|Hk]; apply orb_true_iff.
+    - left. rewrite <- Ei. apply existsb_exists. exists u. rewrite Eu, Hk. auto.
+    - right. rewrite <- Eo. apply existsb_exists. exists u. rewrite Eu, Hk. auto.
+  Qed.
+
+  Lemma flat_first_use_none it : flat_ok d others it = true -> item_flags d it = None ->
+    first_use_item d it = None /\ item_has_out d it = false.
+  Proof.
+    intros Hok Hf. destruct it; cbn [first_use_item item_has_out]; try (rewrite Hf; split; reflexivity). discriminate.
+  Qed.
+
+  Lemma has_out_first_use r : forallb (flat_ok d others) r = true -> has_out d r = true ->
+    exists b, first_use d r = Some b.
+  Proof.
+    induction r as [|x r IH]; intros Hflat Ho; [discriminate|].
+    cbn [forallb] in Hflat. apply andb_true_iff in Hflat as [Hx Hr].
+    cbn [has_out existsb] in Ho. fold (has_out d r) in Ho. cbn [first_use].
+    destruct (item_flags d x) as [[i o]|] eqn:Ef.
+    - destruct (flat_use_is_op x (i, o) Hx Ef) as [id [uses ->]]. cbn [first_use_item]. rewrite Ef. exists i. reflexivity.
+    - destruct (flat_first_use_none x Hx Ef) as [E1 E2]. rewrite E1. rewrite E2 in Ho. apply IH; assumption.
+  Qed.
+
+  Theorem realize_block_coherent : forall l seen dirty s s',
+    forallb (flat_ok d others) l = true ->
+    (seen = false -> dirty = true -> first_use d l = Some false) ->
+    (dirty = true -> has_out d l = true) -> Rel seen dirty s s' ->
+    exists seen', Rel seen' false (exec_list trips l s)
+                      (exec_list trips (fst (ins_list d s0 seen false false l)) s').
+  Proof.
+    induction l as [|it r IH]; intros seen dirty s s' Hflat Hinv Hdirty R.
     - exists seen. destruct dirty; [specialize (Hdirty eq_refl); discriminate|exact R].
     - cbn [forallb] in Hflat. apply andb_true_iff in Hflat as [Hit Hr].
-      cbn [ins_list]. rewrite orb_false_r.
+      cbn [ins_list]. rewrite orb_false_r. unfold next_in.
       change (exec_list trips (it :: r) s) with (exec_list trips r (exec_item trips it s)).
-      cbn [safe_order] in Hsafe. cbn [has_out existsb] in Hdirty. fold (has_out d r) in Hdirty.
+      cbn [has_out existsb] in Hdirty. fold (has_out d r) in Hdirty.
+      cbn [first_use] in Hinv.
       destruct (item_flags d it) as [[i o]|] eqn:Ef.
       + destruct (flat_use_is_op it (i, o) Hit Ef) as [id [uses ->]].
-        apply andb_true_iff in Hsafe as [Hci Hsafe].
+        cbn [first_use_item] in Hinv. rewrite Ef in Hinv.
         cbn [ins_item]. rewrite Ef. cbn [fst snd]. rewrite exec_list_app.
+        set (nx := match first_use d r with Some b => b | None => false end).
+        set (c := (negb (has_out d r) || negb (seen || i) && nx)%bool).
         assert (Hfl := Ef). cbn [item_flags] in Hfl. destruct (uses_val d uses); [|discriminate].
         assert (Ei : existsb (fun u => (fst u =? d)%nat && k_is_input (snd u)) uses = i) by congruence.
         assert (Eo : existsb (fun u => (fst u =? d)%nat && k_is_output (snd u)) uses = o) by congruence.
         clear Hfl.
         assert (Hc : i && negb seen = true -> dirty = false).
-        { intros Hc. rewrite Hc in Hci. destruct dirty; [discriminate|reflexivity]. }
-        pose proof (step_use seen dirty id uses i o (has_out d r) s s' Hit Ei Eo R Hc) as R1.
-        apply (IH (seen || i)%bool (if o then has_out d r else dirty) _ _ Hr Hsafe); [|exact R1].
-        destruct o; [auto|]. intros Hd. specialize (Hdirty Hd).
-        cbn [item_has_out] in Hdirty. rewrite Ef in Hdirty. cbn [orb] in Hdirty. exact Hdirty.
-      + assert (Hins : ins_item d s0 seen (has_out d r) it = ([it], seen)).
-        { destruct it; cbn [ins_item]; try (rewrite Ef; reflexivity). discriminate. }
+        { intros Hc. apply andb_true_iff in Hc as [Hi Hs]. apply negb_true_iff in Hs.
+          destruct dirty; [|reflexivity]. specialize (Hinv Hs eq_refl). congruence. }
+        pose proof (step_use seen dirty id uses i o (negb c) s s' Hit Ei Eo R Hc) as R1.
+        rewrite negb_involutive in R1.
+        apply (IH (seen || i)%bool (if o then negb c else dirty) _ _ Hr); [| |exact R1].
+        * intros Hsi Hd1. apply orb_false_iff in Hsi as [Hs Hi].
+          pose proof (flags_io id uses i o Ef) as Hio. rewrite Hi in Hio. cbn [orb] in Hio.
+          rewrite Hio in Hd1. apply negb_true_iff in Hd1. unfold c in Hd1. rewrite Hs, Hi in Hd1.
+          cbn [orb negb andb] in Hd1.
+          apply orb_false_iff in Hd1 as [Hho Hnx]. apply negb_false_iff in Hho.
+          destruct (has_out_first_use r Hr Hho) as [b Eb]. unfold nx in Hnx. rewrite Eb in Hnx. subst b. exact Eb.
+        * destruct o.
+          -- intros Hd1. apply negb_true_iff in Hd1. unfold c in Hd1. apply orb_false_iff in Hd1 as [Hho _].
+             apply negb_false_iff in Hho. exact Hho.
+          -- intros Hd. specialize (Hdirty Hd). cbn [item_has_out] in Hdirty. rewrite Ef in Hdirty. exact Hdirty.
+      + destruct (flat_first_use_none it Hit Ef) as [E1 E2]. rewrite E1 in Hinv. rewrite E2 in Hdirty.
+        assert (Hins : forall nx, ins_item d s0 seen (has_out d r) nx it = ([it], seen)).
+        { intros nx. destruct it; cbn [ins_item]; try (rewrite Ef; reflexivity). discriminate. }
         rewrite Hins. cbn [fst snd app].
-        change (exec_list trips (it :: fst (ins_list d s0 seen false r)) s')
-          with (exec_list trips (fst (ins_list d s0 seen false r)) (exec_item trips it s')).
-        apply (IH seen dirty _ _ Hr Hsafe); [|apply step_other; assumption].
-        intros Hd. specialize (Hdirty Hd).
-        assert (item_has_out d it = false).
-        { destruct it; cbn [item_has_out]; try (rewrite Ef; reflexivity). discriminate. }
-        rewrite H in Hdirty. exact Hdirty.
+        change (exec_list trips (it :: fst (ins_list d s0 seen false false r)) s')
+          with (exec_list trips (fst (ins_list d s0 seen false false r)) (exec_item trips it s')).
+        apply (IH seen dirty _ _ Hr Hinv Hdirty). apply step_other; assumption.
   Qed.
 End Coherence.
 
@@ -396,14 +439,14 @@ Theorem realize_coherent (trips : nat -> nat) (d src td ts s0 : nat) (others : l
   (forall v, alias s v = alias s s0 -> In v others) -> (* every current alias of the source buffer *)
   safe_block d others post = true ->
   let t := exec_list trips (ICast d src td ts :: post) s in
-  let t' := exec_list trips (IAlloc d :: fst (ins_list d s0 false false post)) s in
+  let t' := exec_list trips (IAlloc d :: fst (ins_list d s0 false false false post)) s in
   trace t = trace t' /\ forall b, b <> d -> memo t b = memo t' b.
 Proof.
   intros Hfresh Hsrc HBo Hs0o Hdo Hal Hsafe t t'.
   set (B := alias s s0) in *.
   assert (HAB : d <> B) by (intros E; apply (Hfresh s0); symmetry; exact E).
   assert (Hs0 : s0 <> d) by (intros E; apply Hdo; rewrite <- E; exact Hs0o).
-  unfold safe_block in Hsafe. apply andb_true_iff in Hsafe as [Hflat Hord].
+  unfold safe_block in Hsafe. pose proof Hsafe as Hflat.
   assert (R : Rel d s0 B others false false (exec_item trips (ICast d src td ts) s) (exec_item trips (IAlloc d) s)).
   { cbn [exec_item]. constructor; cbn [alias memo trace].
     - intros v Hv. rewrite !upd_other by exact Hv. reflexivity.
@@ -416,21 +459,22 @@ Proof.
     - reflexivity.
     - intros _. rewrite upd_other by congruence. reflexivity.
     - intros [H|H]; discriminate. }
-  destruct (realize_block_coherent trips d s0 B others HAB Hs0 HBo Hs0o post false false _ _ Hflat Hord
-              ltac:(discriminate) R) as [seen' R'].
+  destruct (realize_block_coherent trips d s0 B others HAB Hs0 HBo Hs0o post false false _ _ Hflat
+              ltac:(discriminate) ltac:(discriminate) R) as [seen' R'].
   unfold t, t'.
   change (exec_list trips (ICast d src td ts :: post) s) with (exec_list trips post (exec_item trips (ICast d src td ts) s)).
-  change (exec_list trips (IAlloc d :: fst (ins_list d s0 false false post)) s)
-    with (exec_list trips (fst (ins_list d s0 false false post)) (exec_item trips (IAlloc d) s)).
+  change (exec_list trips (IAlloc d :: fst (ins_list d s0 false false false post)) s)
+    with (exec_list trips (fst (ins_list d s0 false false false post)) (exec_item trips (IAlloc d) s)).
   split; [apply (r_trace _ _ _ _ _ _ _ _ R')|].
   intros b Hb. destruct (Nat.eq_dec b B) as [->|HbB].
   - symmetry. apply (r_syncB _ _ _ _ _ _ _ _ R'). reflexivity.
   - apply (r_mem _ _ _ _ _ _ _ _ R'); assumption.
 Qed.
 
-(* non-vacuity: read, write, read of one argument through a shared cast is inside the Safe region *)
+(* non-vacuity: write, read, write of one argument through a shared cast (the former F22 witness) is
+   inside the Safe region of the repaired pass; the flush after the first writer is emitted *)
 Example realize_coherent_nonvacuous :
-  safe_block 2%nat [0%nat] [IOp 0 [(2, KIn); (3, KOut)]; IOp 1 [(2, KOut)]; IOp 2 [(2, KIn); (4, KOut)]]%nat = true /\
-  fst (ins_list 2%nat 0%nat false false [IOp 0 [(2, KIn); (3, KOut)]; IOp 1 [(2, KOut)]; IOp 2 [(2, KIn); (4, KOut)]]%nat) =
-    [ICopy 0 2; IOp 0 [(2, KIn); (3, KOut)]; IOp 1 [(2, KOut)]; ICopy 2 0; IOp 2 [(2, KIn); (4, KOut)]]%nat.
+  safe_block 2%nat [0%nat] [IOp 0 [(2, KOut)]; IOp 1 [(2, KIn); (3, KOut)]; IOp 2 [(2, KOut)]]%nat = true /\
+  fst (ins_list 2%nat 0%nat false false false [IOp 0 [(2, KOut)]; IOp 1 [(2, KIn); (3, KOut)]; IOp 2 [(2, KOut)]]%nat) =
+    [IOp 0 [(2, KOut)]; ICopy 2 0; ICopy 0 2; IOp 1 [(2, KIn); (3, KOut)]; IOp 2 [(2, KOut)]; ICopy 2 0]%nat.
 Proof. split; reflexivity. Qed.
